@@ -60,7 +60,7 @@ fn all_families() -> Vec<Box<dyn Family>> {
 }
 
 fn all_families_base() -> Vec<Box<dyn Family>> {
-  vec![Box::new(c08::C08), Box::new(c18::C18), Box::new(c09::C09), Box::new(c12::C12), Box::new(thr_ops::C19Ops), Box::new(thr_ops::C19Subjects), Box::new(thr_ops::C11), Box::new(timed::C16), Box::new(timed::C15), Box::new(c01::C01), Box::new(c05::C05Seq), Box::new(c05::C05Thr), Box::new(c06::C06), Box::new(c17::C17), Box::new(c14::C14), Box::new(c10::C10), Box::new(c13::C13), Box::new(c13::C13Thr), Box::new(c03::C03), Box::new(c03::C03Rsg), Box::new(c04::C04Travel), Box::new(c04::C04Handlers),
+  vec![Box::new(c08::C08), Box::new(c18::C18), Box::new(c09::C09), Box::new(c12::C12), Box::new(thr_ops::C19Ops), Box::new(thr_ops::C19Subjects), Box::new(thr_ops::C11), Box::new(timed::C16), Box::new(timed::C15), Box::new(c01::C01), Box::new(c05::C05Seq), Box::new(c05::C05Thr), Box::new(c06::C06), Box::new(c17::C17), Box::new(c14::C14), Box::new(c14::C14Shared), Box::new(c10::C10), Box::new(c13::C13), Box::new(c13::C13Thr), Box::new(c03::C03), Box::new(c03::C03Rsg), Box::new(c04::C04Travel), Box::new(c04::C04Handlers),
     Box::new(Only { inner: Box::new(thr_ops::C11), name: "c03-amb-threads", pred: |w| w.s("op") == "amb" }),
     Box::new(Only { inner: Box::new(c12::C12), name: "c10-replay-subject-threads", pred: |w| w.s("subject") != "behavior" })]
 }
@@ -263,7 +263,11 @@ fn spec_for(prop: &str) -> Option<CheckSpec> {
         "self-differential oracle: the reference for subscriber k is the same AST built afresh and subscribed once, driven by exactly the steps that concerned k in the shared run; no operator semantics are assumed".into(),
         "each hot source observer belongs to the subscription during whose driver action it was created".into(),
       ],
-      families: vec![FamilySpec { fam: Box::new(c14::C14), quick_runs: 200_000, thorough_runs: 3_000_000 }],
+      families: vec![
+        FamilySpec { fam: Box::new(c14::C14), quick_runs: 200_000, thorough_runs: 3_000_000 },
+        // a second subscription started mid-stream of a cold synchronous source, also behind ref_count / replay
+        FamilySpec { fam: Box::new(c14::C14Shared), quick_runs: 12_000, thorough_runs: 60_000 },
+      ],
       quick_cap_s: 60,
       thorough_cap_s: 900,
     }),
